@@ -16,7 +16,7 @@ CORE_WRAPS = ['syscall', 'epoll_create', 'epoll_ctl', 'epoll_wait', 'epoll_pwait
 
 
 def build_core(kind="plain"):
-    return vlib.build_harness('ivh_core', ['simk.c', 'simk_sig.c', 'memrec.c', 'ivh_core.c'], kind, wraps=CORE_WRAPS)
+    return vlib.build_harness('ivh_core', ['simk.c', 'simk_sig.c', 'memrec.c', 'ivh_core.c', 'ivh_priv.c'], kind, wraps=CORE_WRAPS)
 
 
 def run_scripts(exe, scripts, scratch, tag="core", nproc=None, per_file=None):
